@@ -55,9 +55,10 @@ LISTED = {'ms': 'msv', 'qs': 'qsv'}   # scalar statistic -> its one-element arra
 class M:
   """Translation of one function body."""
 
-  def __init__(self, attrs, ce_type=None):
+  def __init__(self, attrs, ce_type=None, int32_target=False):
     self.attrs = attrs        # 'self.k' -> (coq name, type)
     self.ce_type = ce_type
+    self.int32_target = int32_target   # the target lookup must be widened with jnp.asarray(.., jnp.int32)
 
   # ---------------------------------------------------------------- expressions
   def score(self, t, ty):
@@ -398,6 +399,12 @@ class M:
   def prelude(self, n, v, env):
     """`target = example[self.target_key]` and
     `pred = prediction if self.pred_key is None else prediction[self.pred_key]`."""
+    widened = (n == 'target' and isinstance(v, ast.Call) and dotted(v.func) == 'jnp.asarray' and len(v.args) == 2
+               and not v.keywords and dotted(v.args[1]) == 'jnp.int32')
+    if widened != bool(self.int32_target) and n == 'target' and (widened or isinstance(v, ast.Subscript)):
+      raise Unsupported('target lookup: int32 widening ' + ('missing' if self.int32_target else 'unexpected'))
+    if widened:
+      v = v.args[0]      # jnp.asarray(x, jnp.int32): the identity on the integer value (Z model), required by the anchor
     if n == 'target' and isinstance(v, ast.Subscript) and isinstance(v.value, ast.Name) and v.value.id == 'example':
       if dotted(v.slice) != 'self.target_key' or 'arg:target' not in env:
         raise Unsupported('target lookup')
@@ -456,7 +463,7 @@ class M:
       oname = self.attrs[d][0]
       inner = dict(self.attrs)
       inner[d] = (oname + '_', 'ev')
-      sub = M(inner, self.ce_type)
+      sub = M(inner, self.ce_type, self.int32_target)
       env2 = dict(env)
       changed = None
       lets = ''
@@ -503,7 +510,7 @@ class M:
     raise Unsupported('if statement ' + ast.dump(t)[:160])
 
 
-def A_metric(cls, coqname, attrs, target_ty, pred_ty, ret, ce_type=None, error=False):
+def A_metric(cls, coqname, attrs, target_ty, pred_ty, ret, ce_type=None, error=False, int32_target=False):
   """evaluate_example of metrics.<cls>.  attrs: [(python attribute, coq parameter, type)];
   target_ty / pred_ty: type of example[target_key] / the prediction (None = unused);
   ce_type: 'q' | 'qv' adds the parameter `ce` standing for unreduced_cross_entropy_loss(target, pred)."""
@@ -527,7 +534,7 @@ def A_metric(cls, coqname, attrs, target_ty, pred_ty, ret, ce_type=None, error=F
       env['arg:pred'] = ('pred', pred_ty)
     if ce_type:
       params.append(('ce', ce_type))
-    m = M({'self.' + a: (c, t) for a, c, t in attrs}, ce_type)
+    m = M({'self.' + a: (c, t) for a, c, t in attrs}, ce_type, int32_target)
     body = m.block(fd.body, env, ('opt', ret) if error else ret)
     ps = ' '.join(f'({n} : {COQ[t]})' for n, t in params)
     rt = f'option {COQ[ret]}' if error else COQ[ret]
@@ -550,7 +557,8 @@ def A_target_weight(coqname):
 
 def A_per_domain(coqname):
   """PerDomainMetric.evaluate_example, matched structurally:
-       domain_mask = jax.nn.one_hot(example[self.domain_id_key], self.num_domains, dtype=jnp.bool_)
+       domain_mask = jax.nn.one_hot(jnp.asarray(example[self.domain_id_key], jnp.int32), self.num_domains, dtype=jnp.bool_)
+         (the int32 widening is required: one_hot compares with arange(n) in the dtype of its input)
        def where(a, b): return apply_mask(domain_mask, jnp.expand_dims(a, 0), jnp.expand_dims(b, 0))
        return jax.tree_util.tree_map(where, self.base.evaluate_example(example, prediction), self.base.zero())
      and apply_mask(mask, a, b) = jnp.where(<mask expanded to the rank>, a, b)
@@ -565,7 +573,7 @@ def A_per_domain(coqname):
       raise Unsupported('PerDomainMetric.evaluate_example: shape')
     a, w, r = body
     ok = (isinstance(a, ast.Assign) and len(a.targets) == 1 and dotted(a.targets[0]) == 'domain_mask'
-          and same(a.value, 'jax.nn.one_hot(example[self.domain_id_key], self.num_domains, dtype=jnp.bool_)')
+          and same(a.value, 'jax.nn.one_hot(jnp.asarray(example[self.domain_id_key], jnp.int32), self.num_domains, dtype=jnp.bool_)')
           and isinstance(w, ast.FunctionDef) and w.name == 'where' and [x.arg for x in w.args.args] == ['a', 'b']
           and len(w.body) == 1 and isinstance(w.body[0], ast.Return)
           and same(w.body[0].value, 'apply_mask(domain_mask, jnp.expand_dims(a, 0), jnp.expand_dims(b, 0))')
@@ -615,3 +623,23 @@ def A_no_hidden_inputs(allowed=()):
       raise Unsupported('hidden input: ' + '; '.join(sorted(set(bad))[:4]))
     return '(* no hash() / id() / time / uuid / random / os.environ in this module (checked) *)'
   return emit
+
+
+def A_ce_widens_targets():
+  """Recogniser: unreduced_cross_entropy_loss one-hot encodes sparse targets only after widening them to int32
+  (jax.nn.one_hot compares with arange(num_classes) in the dtype of its input: 8-bit targets would wrap at 256 classes)."""
+  def emit(tree):
+    fd = find_def(tree, 'unreduced_cross_entropy_loss')
+    want = ast.dump(ast.parse('jax.nn.one_hot(jnp.asarray(targets, jnp.int32), num_classes)', mode='eval').body)
+    hits = [n for n in ast.walk(fd) if isinstance(n, ast.Call) and dotted_or_none(n.func) == 'jax.nn.one_hot']
+    if len(hits) != 1 or ast.dump(hits[0]) != want:
+      raise Unsupported('unreduced_cross_entropy_loss: one_hot of targets that are not widened to int32')
+    return '(* unreduced_cross_entropy_loss: sparse targets are widened to int32 before one_hot (checked) *)'
+  return emit
+
+
+def dotted_or_none(e):
+  try:
+    return dotted(e)
+  except Unsupported:
+    return None
